@@ -2000,4 +2000,629 @@ theorem listeners_reach (env : Env) (A B : St) (hA : WF env A) (hB : WF env B) (
     unfold diff
     simpa only [List.append_assoc, List.nil_append, List.append_nil] using this
 
+
+-- ------------------------------------- dispatch preserves well-formedness --
+
+/-- a comparator that behaves like a linear preorder -/
+structure Lin {α : Type} (c : α → α → Ordering) : Prop where
+  swap : ∀ a b, c b a = (c a b).swap
+  eq_trans : ∀ a b d, c a b = .eq → c b d = c a d
+  lt_trans : ∀ a b d, c a b = .lt → c b d = .lt → c a d = .lt
+
+theorem Lin.eq_right {α : Type} {c : α → α → Ordering} (h : Lin c) (a b d : α) (hbd : c b d = .eq) :
+    c a d = c a b := by
+  have h1 : c d b = .eq := by rw [h.swap, hbd]; rfl
+  have h2 := h.eq_trans d b a h1
+  rw [h.swap d a, h.swap b a, h2]
+
+theorem Lin.on {α β : Type} {c : β → β → Ordering} (h : Lin c) (f : α → β) : Lin (fun a b => c (f a) (f b)) :=
+  ⟨fun a b => h.swap _ _, fun a b d => h.eq_trans _ _ _, fun a b d => h.lt_trans _ _ _⟩
+
+theorem Lin.then {α : Type} {c1 c2 : α → α → Ordering} (h1 : Lin c1) (h2 : Lin c2) :
+    Lin (fun a b => (c1 a b).then (c2 a b)) := by
+  refine ⟨?_, ?_, ?_⟩
+  · intro a b
+    simp only [h1.swap a b, h2.swap a b]
+    cases c1 a b <;> cases c2 a b <;> rfl
+  · intro a b d hab
+    have e1 : c1 a b = .eq := by
+      cases h : c1 a b <;> simp [h, Ordering.then] at hab ⊢
+    have e2 : c2 a b = .eq := by
+      simp [e1, Ordering.then] at hab; exact hab
+    simp only [h1.eq_trans a b d e1, h2.eq_trans a b d e2]
+  · intro a b d hab hbd
+    cases h : c1 a b with
+    | gt => simp [h, Ordering.then] at hab
+    | lt =>
+      cases h' : c1 b d with
+      | gt => simp [h', Ordering.then] at hbd
+      | lt => simp [h1.lt_trans a b d h h', Ordering.then]
+      | eq => simp [h1.eq_right a b d h', h, Ordering.then]
+    | eq =>
+      have hab2 : c2 a b = .lt := by simpa [h, Ordering.then] using hab
+      cases h' : c1 b d with
+      | gt => simp [h', Ordering.then] at hbd
+      | lt => simp [← h1.eq_trans a b d h, h', Ordering.then]
+      | eq =>
+        have hbd2 : c2 b d = .lt := by simpa [h', Ordering.then] using hbd
+        have : c1 a d = .eq := by rw [← h1.eq_trans a b d h, h']
+        simp [this, Ordering.then, h2.lt_trans a b d hab2 hbd2]
+
+theorem nat_cmp_tri (a b : Nat) :
+    (a < b ∧ compare a b = .lt) ∨ (a = b ∧ compare a b = .eq) ∨ (b < a ∧ compare a b = .gt) := by
+  rcases Nat.lt_trichotomy a b with h | h | h
+  · left; exact ⟨h, by simp [compare, compareOfLessAndEq, h]⟩
+  · right; left; exact ⟨h, by simp [compare, compareOfLessAndEq, h]⟩
+  · right; right
+    have h1 : ¬ a < b := by omega
+    have h2 : ¬ a = b := by omega
+    exact ⟨h, by simp [compare, compareOfLessAndEq, h1, h2]⟩
+
+theorem int_cmp_tri (a b : Int) :
+    (a < b ∧ compare a b = .lt) ∨ (a = b ∧ compare a b = .eq) ∨ (b < a ∧ compare a b = .gt) := by
+  rcases Int.lt_trichotomy a b with h | h | h
+  · left; exact ⟨h, by simp [compare, compareOfLessAndEq, h]⟩
+  · right; left; exact ⟨h, by simp [compare, compareOfLessAndEq, h]⟩
+  · right; right
+    have h1 : ¬ a < b := by omega
+    have h2 : ¬ a = b := by omega
+    exact ⟨h, by simp [compare, compareOfLessAndEq, h1, h2]⟩
+
+theorem lin_nat : Lin (fun (a b : Nat) => compare a b) := by
+  refine ⟨?_, ?_, ?_⟩
+  · intro a b
+    rcases nat_cmp_tri a b with ⟨h, e⟩ | ⟨h, e⟩ | ⟨h, e⟩ <;> rcases nat_cmp_tri b a with ⟨h', e'⟩ | ⟨h', e'⟩ | ⟨h', e'⟩ <;>
+      simp only [e, e', Ordering.swap] <;> omega
+  · intro a b d h
+    rcases nat_cmp_tri a b with ⟨h', e⟩ | ⟨h', e⟩ | ⟨h', e⟩ <;> simp only [e] at h <;> try cases h
+    rw [h']
+  · intro a b d h1 h2
+    rcases nat_cmp_tri a b with ⟨h', e⟩ | ⟨h', e⟩ | ⟨h', e⟩ <;> simp only [e] at h1 <;> try cases h1
+    rcases nat_cmp_tri b d with ⟨h'', e'⟩ | ⟨h'', e'⟩ | ⟨h'', e'⟩ <;> simp only [e'] at h2 <;> try cases h2
+    rcases nat_cmp_tri a d with ⟨h3, e3⟩ | ⟨h3, e3⟩ | ⟨h3, e3⟩ <;> simp only [e3] <;> omega
+
+theorem lin_int : Lin (fun (a b : Int) => compare a b) := by
+  refine ⟨?_, ?_, ?_⟩
+  · intro a b
+    rcases int_cmp_tri a b with ⟨h, e⟩ | ⟨h, e⟩ | ⟨h, e⟩ <;> rcases int_cmp_tri b a with ⟨h', e'⟩ | ⟨h', e'⟩ | ⟨h', e'⟩ <;>
+      simp only [e, e', Ordering.swap] <;> omega
+  · intro a b d h
+    rcases int_cmp_tri a b with ⟨h', e⟩ | ⟨h', e⟩ | ⟨h', e⟩ <;> simp only [e] at h <;> try cases h
+    rw [h']
+  · intro a b d h1 h2
+    rcases int_cmp_tri a b with ⟨h', e⟩ | ⟨h', e⟩ | ⟨h', e⟩ <;> simp only [e] at h1 <;> try cases h1
+    rcases int_cmp_tri b d with ⟨h'', e'⟩ | ⟨h'', e'⟩ | ⟨h'', e'⟩ <;> simp only [e'] at h2 <;> try cases h2
+    rcases int_cmp_tri a d with ⟨h3, e3⟩ | ⟨h3, e3⟩ | ⟨h3, e3⟩ <;> simp only [e3] <;> omega
+
+theorem lin_bool : Lin cmpBool := by
+  refine ⟨?_, ?_, ?_⟩ <;> intro a b <;> cases a <;> cases b <;> simp [cmpBool, Ordering.swap] <;>
+    intro d <;> cases d <;> simp [cmpBool]
+
+theorem lin_opt {α : Type} {c : α → α → Ordering} (h : Lin c) : Lin (cmpOpt c) := by
+  refine ⟨?_, ?_, ?_⟩
+  · intro a b; cases a <;> cases b <;> simp only [cmpOpt, Ordering.swap] <;> exact h.swap _ _
+  · intro a b d hab; cases a <;> cases b <;> cases d <;> simp only [cmpOpt] at hab ⊢ <;> first | exact absurd hab (by decide) | rfl | exact h.eq_trans _ _ _ hab
+  · intro a b d hab hbd; cases a <;> cases b <;> cases d <;> simp only [cmpOpt] at hab hbd ⊢ <;> first | exact absurd hab (by decide) | exact absurd hbd (by decide) | rfl | exact h.lt_trans _ _ _ hab hbd
+
+theorem lin_backend : Lin Backend.cmp := by
+  unfold Backend.cmp
+  exact (lin_nat.on _).then ((lin_nat.on _).then (((lin_opt lin_nat).on _).then (((lin_opt lin_int).on _).then
+    (((lin_opt lin_bool).on _).then (lin_nat.on _)))))
+
+theorem Backend.le_total (a b : Backend) (h : a.le b = false) : b.le a = true := by
+  simp only [Backend.le, bne_iff_ne, ne_eq, Bool.not_eq_true, bne_eq_false_iff_eq] at h ⊢
+  rw [lin_backend.swap a b, h]; decide
+
+theorem Backend.le_trans (a b d : Backend) (h1 : a.le b = true) (h2 : b.le d = true) : a.le d = true := by
+  simp only [Backend.le, bne_iff_ne, ne_eq] at *
+  cases hab : Backend.cmp a b with
+  | gt => exact absurd hab h1
+  | eq => rw [← lin_backend.eq_trans a b d hab]; exact h2
+  | lt =>
+    cases hbd : Backend.cmp b d with
+    | gt => exact absurd hbd h2
+    | eq => rw [lin_backend.eq_right a b d hbd, hab]; decide
+    | lt => rw [lin_backend.lt_trans a b d hab hbd]; decide
+
+theorem mem_insertB (x y : Backend) (l : List Backend) : y ∈ insertB x l ↔ y = x ∨ y ∈ l := by
+  induction l with
+  | nil => simp [insertB]
+  | cons z t ih =>
+    simp only [insertB]
+    split
+    · simp
+    · simp only [List.mem_cons, ih]; constructor <;> (intro h; rcases h with h | h | h <;> simp [h])
+
+theorem sorted_insertB (x : Backend) (l : List Backend) (h : SortedB l) : SortedB (insertB x l) := by
+  induction l with
+  | nil => simp [insertB, SortedB]
+  | cons z t ih =>
+    simp only [insertB]
+    have hz := List.pairwise_cons.mp h
+    split
+    · next hle =>
+      refine List.pairwise_cons.mpr ⟨?_, h⟩
+      intro a ha
+      rcases List.mem_cons.mp ha with rfl | ha
+      · exact hle
+      · exact Backend.le_trans _ _ _ hle (hz.1 a ha)
+    · next hle =>
+      refine List.pairwise_cons.mpr ⟨?_, ih hz.2⟩
+      intro a ha
+      rcases (mem_insertB x a t).mp ha with rfl | ha
+      · exact Backend.le_total _ _ (by simpa using hle)
+      · exact hz.1 a ha
+
+theorem sorted_sortB (l : List Backend) : SortedB (sortB l) := by
+  induction l with
+  | nil => simp [sortB, SortedB]
+  | cons z t ih => simp only [sortB, List.foldr_cons] at ih ⊢; exact sorted_insertB z _ ih
+
+theorem mem_sortB (y : Backend) (l : List Backend) : y ∈ sortB l ↔ y ∈ l := by
+  induction l with
+  | nil => simp [sortB]
+  | cons z t ih => simp only [sortB, List.foldr_cons] at ih ⊢; rw [mem_insertB, ih]; simp
+
+theorem perm_insertB (x : Backend) (l : List Backend) : (insertB x l).Perm (x :: l) := by
+  induction l with
+  | nil => simp [insertB]
+  | cons z t ih =>
+    simp only [insertB]
+    split
+    · exact List.Perm.refl _
+    · exact (List.Perm.cons z ih).trans (List.Perm.swap x z t)
+
+theorem perm_sortB (l : List Backend) : (sortB l).Perm l := by
+  induction l with
+  | nil => simp [sortB]
+  | cons z t ih =>
+    simp only [sortB, List.foldr_cons] at ih ⊢
+    exact (perm_insertB z _).trans (List.Perm.cons z ih)
+
+theorem distinct_sortB (l : List Backend) (h : l.Pairwise (fun x y => x.id ≠ y.id ∨ x.addr ≠ y.addr)) :
+    (sortB l).Pairwise (fun x y => x.id ≠ y.id ∨ x.addr ≠ y.addr) := by
+  refine ((perm_sortB l).pairwise_iff ?_).mpr h
+  intro x y hxy
+  rcases hxy with h | h
+  · exact Or.inl (fun e => h e.symm)
+  · exact Or.inr (fun e => h e.symm)
+
+theorem mem_certInsertSorted (fp : Nat) (c : Cert) (m : List (Nat × Cert)) (p : Nat × Cert)
+    (h : p ∈ certInsertSorted fp c m) : p = (fp, c) ∨ p ∈ m := by
+  induction m with
+  | nil => simp [certInsertSorted] at h; exact Or.inl h
+  | cons x t ih =>
+    obtain ⟨k, v⟩ := x
+    simp only [certInsertSorted] at h
+    split at h
+    · rcases List.mem_cons.mp h with h | h
+      · exact Or.inl h
+      · exact Or.inr h
+    · split at h
+      · rcases List.mem_cons.mp h with h | h
+        · exact Or.inl h
+        · exact Or.inr (by simp [h])
+      · rcases List.mem_cons.mp h with h | h
+        · exact Or.inr (by simp [h])
+        · rcases ih h with h | h
+          · exact Or.inl h
+          · exact Or.inr (by simp [h])
+
+theorem sorted_certInsertSorted (fp : Nat) (c : Cert) (m : List (Nat × Cert))
+    (h : m.Pairwise (fun x y => x.1 < y.1)) : (certInsertSorted fp c m).Pairwise (fun x y => x.1 < y.1) := by
+  induction m with
+  | nil => simp [certInsertSorted]
+  | cons x t ih =>
+    obtain ⟨k, v⟩ := x
+    have hz := List.pairwise_cons.mp h
+    simp only [certInsertSorted]
+    split
+    · next hlt =>
+      refine List.pairwise_cons.mpr ⟨?_, h⟩
+      intro a ha
+      rcases List.mem_cons.mp ha with rfl | ha
+      · exact hlt
+      · have := hz.1 a ha; simp at this ⊢; omega
+    · split
+      · next hge heq =>
+        refine List.pairwise_cons.mpr ⟨?_, hz.2⟩
+        intro a ha; have := hz.1 a ha; simp at this ⊢; omega
+      · next hge hne =>
+        refine List.pairwise_cons.mpr ⟨?_, ih hz.2⟩
+        intro a ha
+        rcases mem_certInsertSorted fp c t a ha with rfl | ha
+        · simp; omega
+        · exact hz.1 a ha
+
+theorem resolveNames_pem (env : Env) (c c' : Cert) (h : resolveNames env c = some c') : c'.pem = c.pem := by
+  unfold resolveNames at h
+  split at h
+  · split at h
+    · injection h with h; subst h; rfl
+    · cases h
+  · injection h with h; subst h; rfl
+
+theorem resolveNames_idem (env : Env) (c c' : Cert) (h : resolveNames env c = some c') :
+    resolveNames env c' = some c' := by
+  unfold resolveNames at h
+  split at h
+  · next hemp =>
+    split at h
+    · next ns hn =>
+      injection h with h; subst h
+      unfold resolveNames
+      simp only [hn]
+      split <;> rfl
+    · cases h
+  · next hne => injection h with h; subst h; simp [resolveNames, hne]
+
+theorem applyHttpPatch_addr (p : HttpPatch) (l : HttpL) : (applyHttpPatch p l).addr = l.addr := rfl
+theorem applyHttpsPatch_addr (p : HttpPatch) (l : HttpL) : (applyHttpsPatch p l).addr = l.addr := rfl
+
+theorem canon_idem (a : Nat) : canon (canon a) = canon a := by simp [canon, addrMod]
+
+theorem toFrontend_ok (f : ReqFront) (fr : HttpFront) (h : toFrontend f = some fr) :
+    fkey (toReq fr) = fkey f ∧ toFrontend (toReq fr) = some fr := by
+  unfold toFrontend at h
+  split at h
+  · next hp =>
+    injection h with h; subst h
+    simp [toReq, fkey, toFrontend, canon_idem, hp]
+  · cases h
+
+/-- every verb leaves the entry it addresses well-formed -/
+theorem loc_wf (env : Env) (c : Cmd) (t : Target) (ht : tgt c = some t) (v : Option Val)
+    (hv : ∀ x, v = some x → EntryOK env t x) (v' : Val) (h : (loc env c v).1 = some v') :
+    EntryOK env t v' := by
+  have keep : (loc env c v).1 = v → EntryOK env t v' := fun e => hv v' (by rw [← e]; exact h)
+  cases c with
+  | addCluster cl =>
+    simp only [tgt] at ht; injection ht with ht; subst ht
+    simp only [loc] at h
+    cases hh : cl.hc with
+    | none => simp only [hh] at h; injection h with h; subst h; simp [EntryOK, hh]
+    | some hc =>
+      simp only [hh] at h
+      by_cases hval : hc.valid = true
+      · simp only [hval, if_true] at h; injection h with h; subst h
+        refine ⟨rfl, ?_⟩; intro h' e; rw [hh] at e; injection e with e; subst e; exact hval
+      · simp only [hval] at h; exact hv _ (by simpa using h)
+  | removeCluster id => cases v <;> simp [loc, removeEntry] at h
+  | setHC id hc =>
+    simp only [tgt] at ht; injection ht with ht; subst ht
+    simp only [loc] at h
+    by_cases hval : hc.valid = true
+    · simp only [hval] at h
+      cases v with
+      | none => simp at h
+      | some x =>
+        have hx := hv x rfl
+        cases x <;> simp only [EntryOK] at hx <;> try (exact False.elim hx)
+        simp at h; subst h
+        refine ⟨hx.1, ?_⟩; intro h' e; simp at e; subst e; exact hval
+    · simp [hval] at h; exact hv _ h
+  | removeHC id =>
+    simp only [tgt] at ht; injection ht with ht; subst ht
+    cases v with
+    | none => simp [loc] at h
+    | some x =>
+      have hx := hv x rfl
+      cases x <;> simp only [EntryOK] at hx <;> try (exact False.elim hx)
+      simp [loc] at h; subst h
+      exact ⟨hx.1, by intro h' e; simp at e⟩
+  | addHttpL l =>
+    simp only [tgt] at ht; injection ht with ht; subst ht
+    cases v with
+    | none => simp [loc] at h; subst h; simp [EntryOK]
+    | some x => simp [loc] at h; subst h; exact hv _ rfl
+  | addHttpsL l =>
+    simp only [tgt] at ht; injection ht with ht; subst ht
+    cases v with
+    | none => simp [loc] at h; subst h; simp [EntryOK]
+    | some x => simp [loc] at h; subst h; exact hv _ rfl
+  | addTcpL l =>
+    simp only [tgt] at ht; injection ht with ht; subst ht
+    cases v with
+    | none => simp [loc] at h; subst h; simp [EntryOK]
+    | some x => simp [loc] at h; subst h; exact hv _ rfl
+  | addUdpL l =>
+    simp only [tgt] at ht; injection ht with ht; subst ht
+    cases v with
+    | none => simp [loc] at h; subst h; simp [EntryOK]
+    | some x => simp [loc] at h; subst h; exact hv _ rfl
+  | removeListener ty a => cases v <;> simp [loc, removeEntry] at h
+  | activate ty a =>
+    cases v with
+    | none => simp [loc, setActive] at h
+    | some x =>
+      have hx := hv x rfl
+      cases x <;> simp [loc, setActive] at h <;> subst h <;> cases t <;> simp only [EntryOK] at hx ⊢ <;> exact hx
+  | deactivate ty a =>
+    cases v with
+    | none => simp [loc, setActive] at h
+    | some x =>
+      have hx := hv x rfl
+      cases x <;> simp [loc, setActive] at h <;> subst h <;> cases t <;> simp only [EntryOK] at hx ⊢ <;> exact hx
+  | addHttpF f =>
+    simp only [tgt] at ht; injection ht with ht; subst ht
+    cases v with
+    | some x => simp [loc, addFront] at h; subst h; exact hv _ rfl
+    | none =>
+      cases hf : toFrontend f with
+      | none => simp [loc, addFront, hf] at h
+      | some fr => simp [loc, addFront, hf] at h; subst h; exact toFrontend_ok f fr hf
+  | removeHttpF f => cases v <;> simp [loc, removeEntry] at h
+  | addHttpsF f =>
+    simp only [tgt] at ht; injection ht with ht; subst ht
+    cases v with
+    | some x => simp [loc, addFront] at h; subst h; exact hv _ rfl
+    | none =>
+      cases hf : toFrontend f with
+      | none => simp [loc, addFront, hf] at h
+      | some fr => simp [loc, addFront, hf] at h; subst h; exact toFrontend_ok f fr hf
+  | removeHttpsF f => cases v <;> simp [loc, removeEntry] at h
+  | addCert a cert =>
+    simp only [tgt] at ht; injection ht with ht; subst ht
+    simp only [loc] at h
+    cases hfp : env.fp cert.pem with
+    | none => simp only [hfp] at h; exact hv _ h
+    | some fp =>
+      simp only [hfp] at h
+      cases hr : resolveNames env cert with
+      | none => simp only [hr] at h; exact hv _ h
+      | some cert' =>
+        simp only [hr] at h
+        -- the bucket before
+        have hm : (canon (canon a) = canon a) ∧ (certsOf v).Pairwise (fun x y => x.1 < y.1) ∧
+            ∀ p ∈ certsOf v, env.fp p.2.pem = some p.1 ∧ resolveNames env p.2 = some p.2 := by
+          cases v with
+          | none => exact ⟨canon_idem a, by simp [certsOf], by simp [certsOf]⟩
+          | some x =>
+            have hx := hv x rfl
+            cases x <;> simp only [EntryOK] at hx <;> try (exact False.elim hx)
+            exact hx
+        split at h
+        · injection h with h; subst h; exact hm
+        · injection h with h; subst h
+          refine ⟨hm.1, sorted_certInsertSorted _ _ _ hm.2.1, ?_⟩
+          intro p hp
+          rcases mem_certInsertSorted _ _ _ p hp with rfl | hp
+          · exact ⟨by rw [resolveNames_pem env cert cert' hr]; exact hfp, resolveNames_idem env cert cert' hr⟩
+          · exact hm.2.2 p hp
+  | removeCert a fp =>
+    simp only [tgt] at ht; injection ht with ht; subst ht
+    cases fp with
+    | none => exact hv _ h
+    | some fp =>
+      cases v with
+      | none => simp [loc] at h
+      | some x =>
+        have hx := hv x rfl
+        cases x <;> simp only [loc] at h <;> try (exact hv _ h)
+        simp only [EntryOK] at hx
+        injection h with h; subst h
+        refine ⟨hx.1, List.Pairwise.sublist List.filter_sublist hx.2.1, ?_⟩
+        intro p hp; exact hx.2.2 p (List.mem_filter.mp hp).1
+  | replaceCert a old cert =>
+    simp only [tgt] at ht; injection ht with ht; subst ht
+    simp only [loc] at h
+    cases hr : resolveNames env cert with
+    | none => simp only [hr] at h; exact hv _ h
+    | some cert' =>
+      simp only [hr] at h
+      cases old with
+      | none => exact hv _ h
+      | some old =>
+        cases v with
+        | none => simp at h
+        | some x =>
+          have hx := hv x rfl
+          cases x <;> simp only at h <;> try (exact hv _ h)
+          simp only [EntryOK] at hx
+          cases hfp : env.fp cert.pem with
+          | none => simp only [hfp] at h; exact hv _ h
+          | some nfp =>
+            simp only [hfp] at h; injection h with h; subst h
+            have hs : (certErase _ old).Pairwise (fun x y => x.1 < y.1) :=
+              List.Pairwise.sublist List.filter_sublist hx.2.1
+            refine ⟨hx.1, sorted_certInsertSorted _ _ _ hs, ?_⟩
+            intro p hp
+            rcases mem_certInsertSorted _ _ _ p hp with rfl | hp
+            · exact ⟨by rw [resolveNames_pem env cert cert' hr]; exact hfp, resolveNames_idem env cert cert' hr⟩
+            · exact hx.2.2 p (List.mem_filter.mp hp).1
+  | addTcpF f =>
+    simp only [tgt] at ht; injection ht with ht; subst ht
+    have hl : (∀ g ∈ tfsOf v, g.cluster = f.cluster ∧ canon g.addr = g.addr) ∧ (tfsOf v).Nodup := by
+      cases v with
+      | none => simp [tfsOf]
+      | some x =>
+        have hx := hv x rfl
+        cases x <;> simp only [EntryOK] at hx <;> try (exact False.elim hx)
+        exact hx
+    simp only [loc, addTcpFront] at h
+    split at h
+    · injection h with h; subst h; exact hl
+    · next hnc =>
+      injection h with h; subst h
+      refine ⟨?_, ?_⟩
+      · intro g hg
+        rcases List.mem_append.mp hg with hg | hg
+        · exact hl.1 g hg
+        · simp at hg; subst hg; exact ⟨rfl, canon_idem _⟩
+      · refine List.nodup_append.mpr ⟨hl.2, by simp, ?_⟩
+        intro x hx y hy e
+        simp at hy; subst hy; subst e
+        exact hnc (by simpa using hx)
+  | removeTcpF f =>
+    simp only [tgt] at ht; injection ht with ht; subst ht
+    cases v with
+    | none => simp [loc, removeTcpFront] at h
+    | some x =>
+      have hx := hv x rfl
+      cases x <;> simp only [loc, removeTcpFront] at h <;> try (exact hv _ h)
+      simp only [EntryOK] at hx
+      injection h with h; subst h
+      exact ⟨fun g hg => hx.1 g (List.mem_filter.mp hg).1, List.Nodup.sublist List.filter_sublist hx.2⟩
+  | addUdpF f =>
+    simp only [tgt] at ht; injection ht with ht; subst ht
+    have hl : (∀ g ∈ tfsOf v, g.cluster = f.cluster ∧ canon g.addr = g.addr) ∧ (tfsOf v).Nodup := by
+      cases v with
+      | none => simp [tfsOf]
+      | some x =>
+        have hx := hv x rfl
+        cases x <;> simp only [EntryOK] at hx <;> try (exact False.elim hx)
+        exact hx
+    simp only [loc, addTcpFront] at h
+    split at h
+    · injection h with h; subst h; exact hl
+    · next hnc =>
+      injection h with h; subst h
+      refine ⟨?_, ?_⟩
+      · intro g hg
+        rcases List.mem_append.mp hg with hg | hg
+        · exact hl.1 g hg
+        · simp at hg; subst hg; exact ⟨rfl, canon_idem _⟩
+      · refine List.nodup_append.mpr ⟨hl.2, by simp, ?_⟩
+        intro x hx y hy e
+        simp at hy; subst hy; subst e
+        exact hnc (by simpa using hx)
+  | removeUdpF f =>
+    simp only [tgt] at ht; injection ht with ht; subst ht
+    cases v with
+    | none => simp [loc, removeTcpFront] at h
+    | some x =>
+      have hx := hv x rfl
+      cases x <;> simp only [loc, removeTcpFront] at h <;> try (exact hv _ h)
+      simp only [EntryOK] at hx
+      injection h with h; subst h
+      exact ⟨fun g hg => hx.1 g (List.mem_filter.mp hg).1, List.Nodup.sublist List.filter_sublist hx.2⟩
+  | addBackend b =>
+    simp only [tgt] at ht; injection ht with ht; subst ht
+    have hl : SortedB (backendsOf v) ∧ (∀ g ∈ backendsOf v, g.cluster = b.cluster ∧ canon g.addr = g.addr) ∧
+        (backendsOf v).Pairwise (fun x y => x.id ≠ y.id ∨ x.addr ≠ y.addr) := by
+      cases v with
+      | none => simp [backendsOf, SortedB]
+      | some x =>
+        have hx := hv x rfl
+        cases x <;> simp only [EntryOK] at hx <;> try (exact False.elim hx)
+        exact hx
+    simp only [loc] at h; injection h with h; subst h
+    refine ⟨sorted_sortB _, ?_, distinct_sortB _ ?_⟩
+    · intro g hg
+      rcases List.mem_append.mp ((mem_sortB g _).mp hg) with hg | hg
+      · exact hl.2.1 g (List.mem_filter.mp hg).1
+      · simp at hg; subst hg; exact ⟨rfl, canon_idem _⟩
+    · refine List.pairwise_append.mpr ⟨List.Pairwise.sublist List.filter_sublist hl.2.2, by simp, ?_⟩
+      intro x hx y hy
+      simp at hy; subst hy
+      have := (List.mem_filter.mp hx).2
+      simpa using this
+  | removeBackend cid bid addr =>
+    simp only [tgt] at ht; injection ht with ht; subst ht
+    cases v with
+    | none => simp [loc] at h
+    | some x =>
+      have hx := hv x rfl
+      cases x <;> simp only [loc] at h <;> try (exact hv _ h)
+      simp only [EntryOK] at hx
+      injection h with h; subst h
+      refine ⟨sorted_sortB _, ?_, distinct_sortB _ (List.Pairwise.sublist List.filter_sublist hx.2.2)⟩
+      intro g hg
+      exact hx.2.1 g (List.mem_filter.mp ((mem_sortB g _).mp hg)).1
+  | updHttpL p =>
+    simp only [tgt] at ht; injection ht with ht; subst ht
+    simp only [loc] at h
+    split at h
+    · exact hv _ h
+    · cases v with
+      | none => simp at h
+      | some x =>
+        have hx := hv x rfl
+        cases x <;> simp only at h <;> try (exact hv _ h)
+        injection h with h; subst h
+        simp only [EntryOK, applyHttpPatch_addr] at hx ⊢; exact hx
+  | updHttpsL p =>
+    simp only [tgt] at ht; injection ht with ht; subst ht
+    simp only [loc] at h
+    split at h
+    · exact hv _ h
+    · cases v with
+      | none => simp at h
+      | some x =>
+        have hx := hv x rfl
+        cases x <;> simp only at h <;> try (exact hv _ h)
+        injection h with h; subst h
+        simp only [EntryOK, applyHttpsPatch_addr] at hx ⊢; exact hx
+  | updTcpL p =>
+    simp only [tgt] at ht; injection ht with ht; subst ht
+    cases v with
+    | none => simp [loc] at h
+    | some x =>
+      have hx := hv x rfl
+      cases x <;> simp only [loc] at h <;> try (exact hv _ h)
+      injection h with h; subst h
+      simp only [EntryOK, applyTcpPatch] at hx ⊢; exact hx
+  | updUdpL p =>
+    simp only [tgt] at ht; injection ht with ht; subst ht
+    cases v with
+    | none => simp [loc] at h
+    | some x =>
+      have hx := hv x rfl
+      cases x <;> simp only [loc] at h <;> try (exact hv _ h)
+      injection h with h; subst h
+      simp only [EntryOK, applyUdpPatch] at hx ⊢; exact hx
+  | other ok => simp [tgt] at ht
+  | empty => simp [tgt] at ht
+
+theorem keys_erase_sub (s : St) (t : Target) : ((KMap.erase s t).map (·.1)).Sublist (s.map (·.1)) :=
+  List.Sublist.map _ List.filter_sublist
+
+theorem mem_erase (s : St) (t : Target) (e : Target × Val) (h : e ∈ KMap.erase s t) : e ∈ s ∧ e.1 ≠ t := by
+  have := List.mem_filter.mp h
+  exact ⟨this.1, by simpa using this.2⟩
+
+theorem wf_put (env : Env) (s : St) (hs : WF env s) (t : Target) (v : Option Val)
+    (hv : ∀ x, v = some x → EntryOK env t x) : WF env (put s t v) := by
+  cases v with
+  | none =>
+    refine ⟨List.Nodup.sublist (keys_erase_sub s t) hs.1, ?_⟩
+    intro e he; exact hs.2 e (mem_erase s t e he).1
+  | some x =>
+    refine ⟨?_, ?_⟩
+    · simp only [put, KMap.set, List.map_cons]
+      refine List.nodup_cons.mpr ⟨?_, List.Nodup.sublist (keys_erase_sub s t) hs.1⟩
+      intro hin
+      obtain ⟨e, he, hk⟩ := List.mem_map.mp hin
+      exact (mem_erase s t e he).2 hk
+    · intro e he
+      simp only [put, KMap.set, List.mem_cons] at he
+      rcases he with rfl | he
+      · exact hv x rfl
+      · exact hs.2 e (mem_erase s t e he).1
+
+/-- **`dispatch` preserves well-formedness** -/
+theorem wf_dispatch (env : Env) (s : St) (c : Cmd) (hs : WF env s) : WF env (dispatch env s c).1 := by
+  unfold dispatch
+  cases ht : tgt c with
+  | none => exact hs
+  | some t =>
+    simp only
+    apply wf_put env s hs t
+    intro x hx
+    exact loc_wf env c t ht (look s t) (fun y hy => hs.2 _ (mem_of_look s t y hy)) x hx
+
+theorem wf_init (env : Env) : WF env St.init := ⟨by simp [St.init], by intro e he; simp [St.init] at he⟩
+
+theorem wf_run (env : Env) (cs : List Cmd) (s : St) (hs : WF env s) : WF env (run env s cs) := by
+  induction cs generalizing s with
+  | nil => exact hs
+  | cons c cs ih => exact ih _ (wf_dispatch env s c hs)
+
+theorem bucketsSorted_of_wf (env : Env) (s : St) (hs : WF env s) :
+    ∀ t l, look s t = some (.backends l) → SortedB l := by
+  intro t l h
+  have := hs.2 _ (mem_of_look s t _ h)
+  cases t <;> simp only [EntryOK] at this <;> try (exact False.elim this)
+  exact this.1
+
 end Sozu.State
